@@ -99,9 +99,9 @@ theorem inv_step (m : Mod) (o : Op) (h : Inv m) (hv : o.Valid m.n) : Inv (step m
       have hn := n_deleteChannel hres
       refine ⟨wf_deleteChannel hwf hres, ?_, ?_⟩
       · show ∀ r ∈ m'.recs, r.1 < m'.n
-        rw [h1, hn]; exact hrec
+        rw [hn]; exact fun r hr => hrec r (h1 r hr)
       · show ∀ p ∈ m'.ext, ∀ r ∈ p.2, r.1 < m'.n
-        rw [h2, hn]; exact hext
+        rw [hn]; exact fun p hp => hext p (h2 p hp)
   | setNode rows k v =>
     simp only [step, apply]
     cases hres : setNode m rows k v with
@@ -196,6 +196,14 @@ theorem wf_reachable (n : Nat) (geom : List (String × Nat)) (ops : List Op) (hv
   (inv_reachable n geom ops hv).1
 
 /-! ### 4. deletions undo insertions / frames -/
+
+/-- `delete_channel` never adds a recording or an input, and keeps every recording / input of a state that does not belong to the
+deleted channel (the recordings and clamps of states that disappear with the channel are removed with it: fix of N13) -/
+theorem delete_channel_recordings (m m' : Mod) (rows : List Nat) (c : ChanDesc) (h : deleteChannel m rows c = .ok m') :
+    (∀ r ∈ m'.recs, r ∈ m.recs) ∧ (∀ p ∈ m'.ext, p ∈ m.ext) ∧
+    (∀ r ∈ m.recs, ¬ (r.2 ∈ c.keys ∨ r.2 = c.current) → r ∈ m'.recs) ∧
+    (∀ p ∈ m.ext, ¬ (p.1 ∈ c.keys ∨ p.1 = c.current) → p ∈ m'.ext) :=
+  ⟨(frame_deleteChannel h).1, (frame_deleteChannel h).2, (frame_deleteChannel_keeps h).1, (frame_deleteChannel_keeps h).2⟩
 
 theorem delete_recordings_undoes (m : Mod) :
     (deleteRecordingsAll m).recs = [] ∧ (deleteRecordingsAll m).cols = m.cols ∧ (deleteRecordingsAll m).ext = m.ext ∧
